@@ -179,6 +179,19 @@ UNITS = {
                      "CapacityKnotGenProofs.v": ["py8_approximate_capacity", "C17_returns_source", "C17_arcless_source",
                                                  "C17_le_four_source", "C17_regular_source"]},
     },
+    "shuffle": {
+        "float_primitives": True,              # MiniPyD.val has a float constructor: the primitive declarations are listed, nothing else
+        "functions": translate_minipy.SHUFFLE_FUNCS,
+        "generate": lambda repo, d: translate_minipy.generate_shuffle(repo, os.path.join(d, "ShuffleGen.v")),
+        "refuse": translate_minipy.Refuse,
+        "generated": "ShuffleGen.v",
+        "stages": [["ShuffleRepr.v"], ["ShuffleGenProofs.v"], ["ShuffleKnotGenProofs.v"]],
+        "deps": ["Py.v", "Kmer.v", "Shuffle.v", "Spec.v", "MiniPyD.v", "MiniPyDEnc.v", "Proofs/MiniPyDLemmas.v", "Proofs/ShuffleProofs.v",
+                 "Proofs/KmerProofs.v"],
+        "theorems": {"ShuffleGenProofs.v": ["create_random_shuffles_gen", "create_random_shuffles_gen_raise"],
+                     "ShuffleKnotGenProofs.v": ["py9_create_random_shuffles", "C18_table_source",
+                                                "C18_seed_and_verbose_irrelevant_source", "C18_bad_seed_source"]},
+    },
     "biofilter": {
         "functions": translate_minipy.BIOFILTER_FUNCS,
         "generate": lambda repo, d: translate_minipy.generate_biofilter(repo, os.path.join(d, "BiofilterGen.v")),
@@ -311,6 +324,8 @@ def run_unit(name, repo, use_cache=True, keep=None):
                 if u.get("float_axioms"):
                     bad = ax.unexpected(listed, ax.FLOAT_ALLOWED, ax.FLOAT_PATTERNS)
                     out["axioms_listed"] = sorted(set(listed))
+                elif u.get("float_primitives"):
+                    bad = ax.unexpected(listed, ax.FLOAT_PRIMITIVES, ax.FLOAT_PATTERNS)
                 else:
                     # every Print Assumptions of these files must be closed: no axiom at all
                     bad = sorted(set(listed)) or (["?"] if "Axioms:" in log else [])
@@ -319,11 +334,11 @@ def run_unit(name, repo, use_cache=True, keep=None):
                     out["failed_file"] = f
                     return out
         out.update(proved=True, closed=closed, seconds=round(time.time() - t0, 1))
-        if name in ("operation", "biofilter", "coder", "graph", "coding", "repair", "score", "matrix", "capacity"):
+        if name in ("operation", "biofilter", "coder", "graph", "coding", "repair", "score", "matrix", "capacity", "shuffle"):
             sem = {"operation": semantics_check, "biofilter": semantics_check_filter, "coder": semantics_check_coder,
                    "graph": semantics_check_graph, "coding": semantics_check_coding, "repair": semantics_check_repair,
                    "score": semantics_check_score, "matrix": semantics_check_matrix,
-                   "capacity": semantics_check_capacity}[name](
+                   "capacity": semantics_check_capacity, "shuffle": semantics_check_shuffle}[name](
                 work, repo, int(os.environ.get("VERIF_SEED", "0") or 0))
             out["minipy_semantics_vs_cpython"] = sem
             if sem.get("error") or sem.get("disagreements") or not sem.get("compared"):
@@ -1213,6 +1228,87 @@ def semantics_check_capacity(work, repo, seed=0, n=60):
         res["raised"] += int(w[:1] == [1])
         if g != w and len(res["disagreements"]) < 5:
             res["disagreements"].append({"function": "approximate_capacity", "args": {k: v for k, v in c.items() if k != "stream"},
+                                         "minipy": g[:40], "cpython": w[:40]})
+    return res
+
+
+def semantics_check_shuffle(work, repo, seed=0, n=60):
+    """create_random_shuffles: MiniPyD interpreter (vm_compute) against CPython + NumPy.  numpy.random.shuffle is replaced on both
+    sides by "apply the next permutation of a given stream" (in place, on the row view, on the CPython side); numpy.random.seed is
+    the real one on the CPython side and, on the MiniPyD side, the external function that accepts None and 0 <= seed < 2^32 and
+    raises ValueError otherwise (checked here against NumPy on the boundary seeds)"""
+    import random
+    rng = random.Random(1000003 * seed + 211)
+    cases = []
+    for i in range(n):
+        k = rng.choice([0, 1, 1, 2, 2, 3])
+        sd = rng.choice([None, 0, 1, 12345, 2 ** 32 - 1, 2 ** 32 - 2, rng.randrange(2 ** 32), -1, 2 ** 32, 2 ** 40]) if i % 3 else rng.randrange(2 ** 32)
+        perms = []
+        for _ in range(4 ** k + rng.choice([0, 0, 2])):
+            q = [0, 1, 2, 3]
+            rng.shuffle(q)
+            perms.append(q)
+        cases.append({"k": k, "seed": sd, "verbose": rng.random() < 0.3, "perms": perms})
+    lines = ["From DSW Require Import MiniPyD MiniPyDEnc.", "From DSWGen Require Import ShuffleGen.", "Open Scope Z_scope.",
+             "Definition ext (f : string) (args : list val) : res val :=",
+             '  if String.eqb f "__seed__" then match args with',
+             "    | [VNone] => Ret VNone | [VInt z] => if (0 <=? z) && (z <? 2 ^ 32) then Ret VNone else Exn ValueError | _ => Stuck end",
+             "  else Stuck."]
+    for c in cases:
+        stream = "(VList [%s])" % "; ".join("(VList [%s])" % "; ".join("(VInt (%d))" % x for x in q) for q in c["perms"])
+        lines.append('Eval vm_compute in enc_res (run_fun ext 50 create_random_shuffles_def [VInt (%d); %s; VBool %s; %s]).'
+                     % (c["k"], "VNone" if c["seed"] is None else "(VInt (%d))" % c["seed"], "true" if c["verbose"] else "false", stream))
+    open(os.path.join(work, "SemCasesShuffle.v"), "w").write("\n".join(lines) + "\n")
+    rc, log = _compile(work, "SemCasesShuffle.v")
+    if rc != 0:
+        return {"cases": len(cases), "compared": 0, "error": log[-600:]}
+    got = [[int(x) for x in re.findall(r"-?\d+", blk.split(": list Z")[0])] for blk in log.split("= ")[1:]]
+    if len(got) != len(cases):
+        return {"cases": len(cases), "compared": 0, "error": "parsed %d answers for %d cases" % (len(got), len(cases))}
+    prog = ("import sys, json, io, contextlib\nsys.path.insert(0, %r)\nimport numpy as np\nimport dsw\nimport dsw.spiderweb as S\n"
+            "EX = {ValueError: 1, IndexError: 2, TypeError: 3, OverflowError: 4, KeyError: 5}\n"
+            "def enc(v):\n"
+            "    if isinstance(v, np.ndarray):\n"
+            "        out = [7, len(v)]\n"
+            "        for x in v: out += enc(x)\n"
+            "        return out\n"
+            "    if isinstance(v, (int, np.integer)): return [0, int(v)]\n"
+            "    return [99]\n"
+            "class Stream:\n"
+            "    def __init__(self, perms): self.perms = [list(p) for p in perms]\n"
+            "    def seed(self, x): np.random.seed(x)\n"
+            "    def shuffle(self, a):\n"
+            "        p = self.perms.pop(0)\n"
+            "        a[:] = a[p]\n"
+            "out = []\n"
+            "for c in json.load(sys.stdin):\n"
+            "    S.random = Stream(c['perms'])\n"
+            "    try:\n"
+            "        with contextlib.redirect_stdout(io.StringIO()):\n"
+            "            r = dsw.create_random_shuffles(c['k'], c['seed'], c['verbose'])\n"
+            "        out.append([0] + enc(r))\n"
+            "    except Exception as e:\n"
+            "        out.append([1, EX.get(type(e), 6)])\n"
+            "print(json.dumps({'out': out}))\n" % (repo,))
+    p = subprocess.run(["/venv/bin/python", "-c", prog], input=json.dumps(cases), stdout=subprocess.PIPE, stderr=subprocess.PIPE,
+                       universal_newlines=True, env=dict(os.environ, PYTHONHASHSEED="0"))
+    if p.returncode != 0:
+        return {"cases": len(cases), "compared": 0, "error": p.stderr[-600:]}
+    want = json.loads(p.stdout)["out"]
+    res = {"cases": len(cases), "compared": 0, "stuck": 0, "fuel": 0, "disagreements": [], "raised": 0,
+           "externals": "numpy.random.shuffle := apply the next permutation of a given stream; numpy.random.seed := NumPy's own on the "
+                        "CPython side, 'None or 0 <= seed < 2^32, else ValueError' on the MiniPyD side"}
+    for c, g, w in zip(cases, got, want):
+        if g[:1] == [3]:
+            res["stuck"] += 1
+            continue
+        if g[:1] == [2]:
+            res["fuel"] += 1
+            continue
+        res["compared"] += 1
+        res["raised"] += int(w[:1] == [1])
+        if g != w and len(res["disagreements"]) < 5:
+            res["disagreements"].append({"function": "create_random_shuffles", "args": {k: v for k, v in c.items() if k != "perms"},
                                          "minipy": g[:40], "cpython": w[:40]})
     return res
 
